@@ -1,6 +1,8 @@
 mod c08;
 mod c11;
+mod c12;
 mod c17;
+mod proj;
 mod c20;
 mod core;
 mod gen;
@@ -14,7 +16,7 @@ mod sut;
 use core::{Scenario, Tier};
 
 fn scenarios() -> Vec<&'static dyn Scenario> {
-    vec![&c20::C20Lib, &c11::C11Threads, &c08::C08Images, &c17::C17Corrupt]
+    vec![&c20::C20Lib, &c11::C11Threads, &c08::C08Images, &c17::C17Corrupt, &c12::C12Deliveries, &c12::C12Subsets, &c12::C12XmodEnumeral, &c12::C12XmodName]
 }
 
 fn meta(prop: &str) -> (&'static str, Vec<&'static str>, serde_json::Value) {
@@ -43,6 +45,16 @@ fn meta(prop: &str) -> (&'static str, Vec<&'static str>, serde_json::Value) {
                 "non-termination is detected by a CPU-time budget (RLIMIT_CPU, 60 s per batch of images against a typical 5-500 ms)",
             ],
             serde_json::json!({"components": components, "rule": "a case = (valid base source, storage-fault image, delivery, backend): bases are the 892 corpus files (walked systematically) and generated module sets; images are truncations (biased to the last bytes), single-bit flips, 512-byte sector zero-fill/duplication/swap and splices; delivered as a literal or as a file read through the simulated disk (truncation/flip/zero-fill applied by the seam to the bytes in flight); both backends; every error and warning rendered with Display and contextualize. distinct = distinct (base hash, image, delivery); non-trivial = the image differs from the base"}),
+        ),
+        "C12" => (
+            "exploration",
+            vec![
+                "Oracle A uses only the public Backend trait (a wrapper backend handed to Compiler::with_backend); the inner backends are the real RasnBackend / TypescriptBackend",
+                "the stand-alone reference of a module is compile_to_string() of the module plus its transitive import cone in a pristine process",
+                "name mangling is not re-implemented: which Rust identifiers an assignment produces is learned by leave-one-out compilation of the exporting module",
+                "generated module sets keep top-level names, enumerals and named numbers disjoint across modules, except in the dedicated xmod-* scenarios, where a violation is classified by re-running the same plan with the shared spelling renamed apart",
+            ],
+            serde_json::json!({"components": components, "rule": "deliveries: a case = a run of 1..3 compilations (same set, its sibling, or another set; 2..5 modules with differing TAGS/EXTENSIBILITY defaults and import graphs) through a Hist<B> wrapper that replays, duplicates and reorders generate_module deliveries; every delivery is compared with the same call on a fresh backend. subsets: a case = a module set and 3..6 sub-multisets (cone of a module + random neighbours + duplicates, random order, literals/one literal/files, random builder path); every present module's block is compared token-for-token with its block in the stand-alone compilation, and its use declarations with the IMPORTS clauses. distinct = distinct (set, compilations or delivery stream) signatures; non-trivial = at least one block / delivery comparison was made"}),
         ),
         "C17" => (
             "exploration",
